@@ -175,7 +175,7 @@ def wfdKind (S : Schema) (d : StructDef) (f : Field) : Bool :=
     (match lookupField d.fields t with
       | some tf => (match tf.kind with | .ref ty _ => isStructType S ty && posSize S ty | _ => false)
       | none => false)
-  | .array _ mode _ _ key => key.isNone || (match mode with | .count _ => true | _ => false)
+  | .array _ mode _ _ key => key.isNone || (match mode with | .sized _ => false | _ => true)
   | _ => true
 
 /-- the condition of a member, seen from the member:
